@@ -98,7 +98,8 @@ fn hang_watchdog(shard: Shard) {
             let prop = checks::common::current_prop();
             let case = match campaign::ACC.try_lock() { Ok(g) => g.as_ref().and_then(|a| a.current_case.clone()), Err(_) => None };
             let mut cj = util::J::obj().set("kind", util::J::s("case_index")).set("check", util::J::s(shard.check.clone())).set("seed", util::J::Int(shard.seed as i64))
-                .set("case_index", if idx == u64::MAX { util::J::Null } else { util::J::Int(idx as i64) });
+                .set("case_index", if idx == u64::MAX { util::J::Null } else { util::J::Int(idx as i64) })
+                .set("shard_idx", util::J::Int(shard.idx as i64)).set("shard_n", util::J::Int(shard.n as i64)).set("tier", util::J::s(if shard.tier == campaign::Tier::Thorough { "thorough" } else { "quick" }));
             if let Some(c) = case { cj = cj.set("case_in_progress", c); }
             let v = util::J::obj().set("property", util::J::s(prop)).set("clause", util::J::s("no_return_within_cpu_budget"))
                 .set("detail", util::J::s(format!("a library call did not return: the case in progress (index {idx} of check {}) has burnt {} CPU-seconds (normal cost: milliseconds)", shard.check, (cpu - cpu0) / 100)))
